@@ -3,7 +3,7 @@
     content and every allocation limit. *)
 From Coq Require Import NArith ZArith List Bool Lia ZifyBool ZifyNat ZifyN.
 From KdV Require Import Parse.Bounded Parse.BoundedProofs Parse.NotesModel Parse.NotesProofs
-     Parse.ElfModel.
+     Parse.PElfModel.
 Import ListNotations.
 Local Open Scope N_scope.
 #[local] Hint Resolve good_ok good_noprobe : core.
